@@ -435,7 +435,12 @@ func VerifEngine() {
 		eps[i] = &domain.Endpoint{Name: names[i], URL: u, URLString: u.String(), Status: domain.StatusHealthy, BackoffMultiplier: 1, CheckInterval: 5 * time.Second}
 		world.known[u.Host] = true
 	}
-	disc := &zzDisc{healthy: append([]*domain.Endpoint{}, eps...)}
+	// the repository knows one more healthy endpoint that is NOT a candidate of this request (it was
+	// excluded by model / provider / capability routing)
+	ou, _ := url.Parse("zz://x.backend:11434")
+	outsider := &domain.Endpoint{Name: "x", URL: ou, URLString: ou.String(), Status: domain.StatusHealthy, BackoffMultiplier: 1, CheckInterval: 5 * time.Second}
+	world.known[ou.Host] = true
+	disc := &zzDisc{healthy: append(append([]*domain.Endpoint{}, eps...), outsider)}
 	pick := &zzPick{inflight: map[string]int{}}
 	stats := &zzStats{success: map[string]int{}, errors: map[string]int{}, conns: map[string]int{}}
 	var sel domain.EndpointSelector = pick
@@ -468,7 +473,11 @@ func VerifEngine() {
 	bodyBytes := gosym.Bytes("body", gosym.Param("BODY"))
 	clientCtx, cancel := context.WithCancel(context.Background())
 	world.cancelClient = cancel
-	r, _ := http.NewRequestWithContext(clientCtx, "POST", "http://olla.local/v1/chat/completions?stream=true&x=%20y", io.NopCloser(&zzReader{data: append([]byte{}, bodyBytes...)}))
+	method := "POST"
+	if gosym.Param("METHODS") == 1 {
+		method = []string{"POST", "GET", "PUT", "DELETE", "PATCH"}[gosym.Choice("method", 5)]
+	}
+	r, _ := http.NewRequestWithContext(clientCtx, method, "http://olla.local/v1/chat/completions?stream=true&x=%20y", io.NopCloser(&zzReader{data: append([]byte{}, bodyBytes...)}))
 	r.Header.Set("Content-Type", "application/json")
 	r.Header.Set("X-Custom", "kept")
 	r.Header.Set("Authorization", "Bearer secret")
@@ -510,7 +519,7 @@ func VerifEngine() {
 			}
 		}
 		if is(1) {
-			gosym.Assert(a.method == "POST", "C01: the backend receives the client's method")
+			gosym.Assert(a.method == method, "C01: the backend receives the client's method")
 			gosym.Assert(a.path == "/v1/chat/completions", "C01: the backend receives the request path")
 			gosym.Assert(a.rawQuery == "stream=true&x=%20y", "C01: the backend receives the query string verbatim")
 			gosym.Assert(zzBytesEq(a.body, bodyBytes), "C01: every attempt carries the client's body byte for byte")
